@@ -4,20 +4,21 @@ CONSTANTS
   MaxG = 3
   MaxDepth = 2
   MaxIn = 2
-  Canon = FALSE
+  InOrdered = TRUE
+  OrderMode = "all"
+  Acyclic = FALSE
   AllRoots = TRUE
-  CheckRef = TRUE
+  Random = FALSE
   EmitOn = TRUE
 INIT Init
 NEXT Next
 CHECK_DEADLOCK FALSE
-INVARIANT InvWellFormed
 INVARIANT InvTopo
 INVARIANT InvOwnNodes
 INVARIANT InvStable
 INVARIANT InvCycleAtomic
 INVARIANT InvCycleExact
+INVARIANT InvScope
 INVARIANT InvIdempotent
 INVARIANT InvRefGlobal
-INVARIANT InvRefPerGraph
 INVARIANT InvCyclicDef
